@@ -718,13 +718,13 @@ def set_maskbits(idlutils_version='v5_5_33', maskbits_file=None):
     #
     maskbits = dict()
     for k in range(maskfile.size('MASKBITS')):
-        if maskfile['MASKBITS']['flag'][k] in maskbits:
-            maskbits[maskfile['MASKBITS']['flag'][k]][maskfile['MASKBITS']['label'][k]] = maskfile['MASKBITS']['bit'][k]
+        if maskfile['MASKBITS']['flag'][k].upper() in maskbits:
+            maskbits[maskfile['MASKBITS']['flag'][k].upper()][maskfile['MASKBITS']['label'][k].upper()] = maskfile['MASKBITS']['bit'][k]
         else:
-            maskbits[maskfile['MASKBITS']['flag'][k]] = {maskfile['MASKBITS']['label'][k]: maskfile['MASKBITS']['bit'][k]}
+            maskbits[maskfile['MASKBITS']['flag'][k].upper()] = {maskfile['MASKBITS']['label'][k].upper(): maskfile['MASKBITS']['bit'][k]}
     if 'MASKALIAS' in maskfile:
         for k in range(maskfile.size('MASKALIAS')):
-            maskbits[maskfile['MASKALIAS']['alias'][k]] = maskbits[maskfile['MASKALIAS']['flag'][k]].copy()
+            maskbits[maskfile['MASKALIAS']['alias'][k].upper()] = maskbits[maskfile['MASKALIAS']['flag'][k].upper()].copy()
     return maskbits
 
 
